@@ -275,6 +275,16 @@ func buildSchema(c sCase) *jsonapi.Schema {
 		}
 		s.RemoveType("zq0")
 		s.RemoveType("zq1")
+		// ... and a dangling relationship that is checked and then removed again: what Check or
+		// Rels keep from one call to the next has to follow RemoveRel too
+		if len(c.State) > 0 {
+			first := ctn(c.State[0].Name)
+			if s.AddRel(first, jsonapi.Rel{FromType: first, FromName: "zq", ToOne: true, ToType: "zq-missing"}) == nil {
+				_ = s.Check()
+				_ = s.Rels()
+				s.RemoveRel(first, "zq")
+			}
+		}
 		return s
 	}
 	for _, op := range c.Hist {
